@@ -612,11 +612,17 @@ func (encryptor *QueryDataEncryptor) updatePlaceholderMap(valuesCount int, place
 // encryptValuesWithPlaceholders encrypts "values" of prepared statement parameters
 // using the placeholder mapping which specifies the column which each value is mapped onto.
 // If the database schema says that a column needs encryption, corresponding value is encrypted.
+// ErrMissingBoundValue is returned when a statement needs a bound value the client did not send
+var ErrMissingBoundValue = errors.New("bound value for a placeholder is missing")
+
 func (encryptor *QueryDataEncryptor) encryptValuesWithPlaceholders(ctx context.Context, values []decryptor.BoundValue, placeholders map[int]string, schema config.TableSchema) ([]decryptor.BoundValue, bool, error) {
 	changed := false
 	oldValues := make([]decryptor.BoundValue, len(values))
 	for index, value := range values {
-		oldValues[index] = value.Copy()
+		// a value may be absent: MySQL COM_STMT_EXECUTE without re-bound parameters carries no types to decode them
+		if value != nil {
+			oldValues[index] = value.Copy()
+		}
 	}
 
 	for valueIndex, columnName := range placeholders {
@@ -632,6 +638,10 @@ func (encryptor *QueryDataEncryptor) encryptValuesWithPlaceholders(ctx context.C
 		}
 		changed = true
 		setting := schema.GetColumnEncryptionSettings(columnName)
+		// the statement may refer to more parameters than the packet carries
+		if valueIndex < 0 || valueIndex >= len(values) || values[valueIndex] == nil {
+			return oldValues, false, ErrMissingBoundValue
+		}
 		valueData, err := values[valueIndex].GetData(setting)
 		if err != nil {
 			return nil, false, err
